@@ -6,6 +6,21 @@ ids = [p['id'] for p in props]
 
 # id -> (category, technique, text, note, design_ref)
 CHECKS = {
+ 'C08': ('exploration',
+         'metamorphic property testing: repeated translation under fresh hash seeds, in one process and in fresh processes',
+         'Documents built to expose a missing sort (many bindings per object, palettes, fonts, icons, several handlers per object, several includes, several independent errors) are translated 8 times in one process, interleaved with other documents and modes (every HashMap instance gets a new seed), and a sample 3 times by fresh qmluic processes; .ui bytes, header bytes, exit status and the diagnostic multiset must be equal; the command\'s bytes must equal the library\'s.',
+         'Hash seeds are sampled by repetition, not enumerated (no hook to set them); a missing sort over >=4 entries escapes 8 repetitions with probability <= (1/24)^7.',
+         'DESIGN.md section 3 C08'),
+ 'C14': ('exploration',
+         'differential property testing across the three dynamic-binding modes',
+         'Generated documents (static, with dynamic bindings/handlers, with one or two planted faults of 16 kinds) are translated in generate, reject and omit mode and the four clauses of the statement are compared across the three results: identical .ui whenever produced, accepted(reject) <=> accepted(generate) with a header free of bindings and callbacks, errors(omit) a sub-multiset of errors(generate), header only in generate.',
+         '"Produced" = accepted for generate/reject (what the command writes) and built for omit (what the previewer shows). Header emptiness is read by the harness header scanner.',
+         'DESIGN.md section 3 C14'),
+ 'C20': ('exploration',
+         'metamorphic property testing: faulted document vs. the same document with the fault removed, in omit mode',
+         'One fault from the statement\'s list is planted at a random object of a generated accepted document (layouts with explicit cells included); in omit mode a form must exist, an error must lie inside the faulty text, and the form must equal - outside the faulty object, whose own values are masked - the form of the document with the faulty binding (or a larger subset of that object\'s own bindings) removed, resp. with exactly the faulty object\'s subtree removed up to renumbering of generated names.',
+         'The subset family makes "loses at most its own property values" exact while letting grid successors move exactly when deleting those bindings moves them. Result-type mismatches of dynamic bindings are not planted: omit mode does not run the pass that finds them (consistent with C14\'s subset clause).',
+         'DESIGN.md section 3 C20'),
  'C09': ('exploration',
          'property-based round-trip through an independent XML parser plus a grammar validity predicate',
          'Accepted documents decorated from the whole constant-binding catalogue, with every string slot (text, tool tips, titles, string lists, model items, tab attributes, icon theme attribute, font family, pixmap paths, key sequences) filled from the XML 1.0 Char production and with unusual type names, are translated; the .ui must parse with a strict XML reader written in the harness, stay inside a content-model table of the ui4 subset uic reads, and every decoded string/value must equal the model value exactly. A round-trip over generated strings is exactly what decides "for all string contents".',
